@@ -67,3 +67,12 @@ theories/Props/C10.vos theories/Props/C10.vok theories/Props/C10.required_vos: t
 theories/Props/C11.vo theories/Props/C11.glob theories/Props/C11.v.beautified theories/Props/C11.required_vo: theories/Props/C11.v theories/Base.vo theories/Fringe.vo theories/FringeProofs.vo theories/Fringe2.vo
 theories/Props/C11.vio: theories/Props/C11.v theories/Base.vio theories/Fringe.vio theories/FringeProofs.vio theories/Fringe2.vio
 theories/Props/C11.vos theories/Props/C11.vok theories/Props/C11.required_vos: theories/Props/C11.v theories/Base.vos theories/Fringe.vos theories/FringeProofs.vos theories/Fringe2.vos
+theories/Props/C01.vo theories/Props/C01.glob theories/Props/C01.v.beautified theories/Props/C01.required_vo: theories/Props/C01.v theories/Base.vo theories/Fringe.vo theories/DP.vo theories/Cache.vo theories/Dom.vo theories/Mdd.vo theories/Solver.vo theories/SolverProofs.vo
+theories/Props/C01.vio: theories/Props/C01.v theories/Base.vio theories/Fringe.vio theories/DP.vio theories/Cache.vio theories/Dom.vio theories/Mdd.vio theories/Solver.vio theories/SolverProofs.vio
+theories/Props/C01.vos theories/Props/C01.vok theories/Props/C01.required_vos: theories/Props/C01.v theories/Base.vos theories/Fringe.vos theories/DP.vos theories/Cache.vos theories/Dom.vos theories/Mdd.vos theories/Solver.vos theories/SolverProofs.vos
+theories/Props/C13.vo theories/Props/C13.glob theories/Props/C13.v.beautified theories/Props/C13.required_vo: theories/Props/C13.v theories/Base.vo theories/Width.vo
+theories/Props/C13.vio: theories/Props/C13.v theories/Base.vio theories/Width.vio
+theories/Props/C13.vos theories/Props/C13.vok theories/Props/C13.required_vos: theories/Props/C13.v theories/Base.vos theories/Width.vos
+theories/Props/C14.vo theories/Props/C14.glob theories/Props/C14.v.beautified theories/Props/C14.required_vo: theories/Props/C14.v theories/Base.vo theories/Fringe.vo theories/DP.vo theories/Cache.vo theories/Dom.vo theories/Mdd.vo theories/Solver.vo theories/SolverProofs.vo
+theories/Props/C14.vio: theories/Props/C14.v theories/Base.vio theories/Fringe.vio theories/DP.vio theories/Cache.vio theories/Dom.vio theories/Mdd.vio theories/Solver.vio theories/SolverProofs.vio
+theories/Props/C14.vos theories/Props/C14.vok theories/Props/C14.required_vos: theories/Props/C14.v theories/Base.vos theories/Fringe.vos theories/DP.vos theories/Cache.vos theories/Dom.vos theories/Mdd.vos theories/Solver.vos theories/SolverProofs.vos
